@@ -151,5 +151,44 @@ def r4_client_schema_single_source(chk: Check) -> None:
     shared.lazy_field_single_writer_rule(chk, "C20.R4", {"specs/graphql/schemas.py:GraphQLSchema.client_schema": "self.raw_schema"}, "the GraphQL schema queries are generated from and validated against is `build_client_schema(raw_schema)` - the introspection form, which carries no SDL-only default-value AST nodes and no deprecated arguments")
 
 
+def r5_scalar_tables(chk: Check) -> None:
+    chk.rule("C20.R5", "TABLE(built-in and registered custom scalars): every entry of get_extra_scalar_strategies ends in `.map(nodes.<Kind>)` - hypothesis-graphql prints whatever the strategy yields as the argument literal, so a raw Python value instead of an AST node (or a string-typed scalar wrapped as Int) gives an invalid document; the kind matches the scalar (textual scalars -> String, BigInt / Long -> Int), `IPv4` / `IPv6` select that address family and `Long` stays within 64 bits; `scalar(name, strategy)` stores exactly that strategy under exactly that name after validating both", floor=10)
+    P = chk.project
+    fn = P.func("specs/graphql/scalars.py:get_extra_scalar_strategies")
+    table = next((r for r in simple_return_expr(fn) if isinstance(r, ast.Dict)), None)
+    if table is None:
+        raise Undecided("get_extra_scalar_strategies does not return a dict display")
+    KIND = {"Date": "String", "Time": "String", "DateTime": "String", "IP": "String", "IPv4": "String", "IPv6": "String", "UUID": "String", "BigInt": "Int", "Long": "Int"}
+    for k, v in zip(table.keys, table.values):
+        name = const_str(k)
+        construct = f"scalar `{name}` yields AST nodes of its kind"
+        if not (isinstance(v, ast.Call) and last_attr(v) == "map" and len(v.args) == 1):
+            chk.violation("C20.R5", fn, construct, f"`{unparse(v, 70)}` does not end in `.map(nodes.<Kind>)`: raw Python values are handed to the query printer", fn.loc(v))
+            continue
+        kind = unparse(v.args[0])
+        want = KIND.get(name or "")
+        if not kind.startswith("nodes."):
+            chk.violation("C20.R5", fn, construct, f"mapped through `{kind}`, not a node constructor", fn.loc(v))
+        elif want is None:
+            chk.ok("C20.R5", fn, construct, f"{kind} (scalar not in the confirmed table)", fn.loc(v))
+        elif kind == f"nodes.{want}":
+            chk.ok("C20.R5", fn, construct, kind, fn.loc(v))
+        else:
+            chk.violation("C20.R5", fn, construct, f"`{name}` values are wrapped as {kind}, the scalar's literal kind is {want}: the argument literal has the wrong GraphQL type for the declared scalar", fn.loc(v))
+        forms = " ".join(canon(fn, v))
+        if name in ("IPv4", "IPv6"):
+            fam = name[-1]
+            chk.decide(True if f"ip_addresses(v={fam})" in forms else (False if "ip_addresses(" in forms else None), "C20.R5", fn, f"`{name}` generates IPv{fam} addresses", f"the address family is not v={fam}: `{name}` arguments get addresses of the other family (or both)", fn.loc(v))
+        if name == "Long":
+            chk.decide(True if ("min_value=-2 ** 63" in forms and "max_value=2 ** 63 - 1" in forms) else (False if "integers()" in forms else None), "C20.R5", fn, "`Long` stays within a signed 64-bit integer", "unbounded integers for `Long`", fn.loc(v))
+    reg = P.func("specs/graphql/scalars.py:scalar")
+    stores = [a for a in walk_body(reg.node) if isinstance(a, ast.Assign) and any(isinstance(t, ast.Subscript) and unparse(t.value) == "CUSTOM_SCALARS" for t in a.targets)]
+    ps = params_of(reg.node)
+    okst = bool(stores) and all(unparse(a.targets[0].slice) == ps[0] and unparse(a.value) == ps[1] for a in stores) if len(ps) >= 2 else False
+    chk.decide(True if okst else (None if not stores else False), "C20.R5", reg, "scalar(name, strategy) stores the strategy under the name", "the registry entry is not `CUSTOM_SCALARS[name] = strategy`", reg.loc())
+    raises = [r for r in walk_body(reg.node) if isinstance(r, ast.Raise)]
+    chk.decide(True if len(raises) >= 2 else None, "C20.R5", reg, "name and strategy are validated before registration", "validation not recognised", reg.loc())
+
+
 def rules(tier: str) -> list:  # type: ignore[type-arg]
-    return [r1_factory_plumbing, r2_enumeration, r3_transport_body, r4_client_schema_single_source, rfwd_forwarding]
+    return [r1_factory_plumbing, r2_enumeration, r3_transport_body, r4_client_schema_single_source, r5_scalar_tables, rfwd_forwarding]
